@@ -217,7 +217,12 @@ func TestC09(t *testing.T) {
 	})
 
 	rapidCheck(t, "C09/random", tier(20000, 2000000), func(rt *rapid.T) {
-		cues := genCues(rt, 0, 8, 24*nsHour, opTextsWide)
+		span := rapid.SampledFrom([]int64{24 * nsHour, 24 * nsHour, 24 * nsHour, 130 * nsHour, 1000 * nsHour}).Draw(rt, "span")
+		cues := genCues(rt, 0, 8, span, opTextsWide)
+		if span > 24*nsHour {
+			// (a capture running for days, times in a format with more than two hour digits)
+			ev.Label("instants-beyond-100-hours")
+		}
 		if rapid.IntRange(0, 3).Draw(rt, "negative") == 0 && len(cues) > 0 {
 			// boundaries below zero (as a linear correction or an earlier hand edit may leave them): start <= end still holds
 			off := rapid.SampledFrom([]int64{1, nsMs, 5 * nsMs, cues[0].E + 1, cues[len(cues)-1].S + nsMs}).Draw(rt, "negoff")
